@@ -38,9 +38,18 @@ IsAttr(f) == f.api = "attr"
 IsRel(f)  == SplitComma(f.api)[1] = "rel"
 Tagged(f) == IsAttr(f) \/ IsRel(f)
 
+\* the api tag of the ID field is the type's name, whatever it spells: a type may be called attr or rel
+\* ("tname-*": ID string `json:"id" api:"<name>"`; "named-attr": the same with an ID of a defined string type)
+TypeName(id) == CASE id \in {"tname-attr", "named-attr"} -> "attr"
+                  [] id = "tname-rel" -> "rel"
+                  [] id = "tname-rel2" -> "rel,tx"
+                  [] id = "tname-rel4" -> "rel,a,b,c"
+                  [] OTHER -> "st"
+SaneIds == {"ok", "last", "named", "tname-attr", "tname-rel", "tname-rel2", "tname-rel4", "named-attr"}
+
 \* the declaration is one the library can serve: this is what a sound Check accepts at most
 Sane(sh) ==
-    /\ sh.id \in {"ok", "last", "named"}    \* ID string first, ID string after the other fields, ID of a defined string type
+    /\ sh.id \in SaneIds    \* ID string first, ID string after the other fields, ID of a defined string type, a type called like a tag
     /\ \A i \in 1..Len(sh.fields) : LET f == sh.fields[i] IN
           /\ IsAttr(f) => AttrKind(f.gotype).k # "unsupported" /\ JName(f) \notin {"", "id"}
           /\ IsRel(f) => /\ Len(SplitComma(f.api)) \in {2, 3}
@@ -55,7 +64,7 @@ Expected(sh) ==
     LET A == {i \in 1..Len(sh.fields) : IsAttr(sh.fields[i])}
         R == {i \in 1..Len(sh.fields) : IsRel(sh.fields[i])}
         idx(S, n) == CHOOSE i \in S : JName(sh.fields[i]) = n
-    IN [name |-> "st",
+    IN [name |-> TypeName(sh.id),
         attrs |-> [n \in {JName(sh.fields[i]) : i \in A} |-> AttrKind(sh.fields[idx(A, n)].gotype)],
         rels |-> [n \in {JName(sh.fields[i]) : i \in R} |->
                     LET f == sh.fields[idx(R, n)]  t == SplitComma(f.api) IN
@@ -74,6 +83,12 @@ StructOK(sh, o) ==
 -----------------------------------------------------------------------------
 (* The pinned code: Check accepts declarations that later panic or yield a     *)
 (* type that is not the declared one.                                          *)
+\* (fixed) the ID field's api tag was read a second time as a field declaration: in a type called attr
+\* the ID was also an attribute "id", in a type called "rel,x" a relationship "id", and a type called
+\* rel was refused (Check, BuildType and Wrap alike)
+Dev_TypeNameReadAsFieldTag(e) ==
+    /\ e.ev = "struct" /\ e.shape.id \in {"tname-attr", "tname-rel", "tname-rel2", "tname-rel4", "named-attr"}
+    /\ Sane(e.shape)
 Dev_CheckAcceptsUnsound(e) ==
     /\ e.ev = "struct" /\ e.obs.check = "ok" /\ ~Sane(e.shape)
 \* (fixed) Wrapper.Set wrote the first field with the json name, tagged or not, while Get
